@@ -479,6 +479,21 @@ def block_boundary_settings(m, rng):
 
 
 
+
+def salt_length_bad_char(m, rng):
+    """an unterminated salt of EVERY length the field can have (and a few beyond) that is clean except for one printable
+    character outside the method's salt alphabet -- first, middle or last: a validation whose extent is derived from the
+    length of the setting (tail heuristics, "only the echoed part") has lengths at which it looks at nothing"""
+    head = {"scrypt": "$7$4/..../....", "yescrypt": "$y$j65$", "gost_yescrypt": "$gy$j65$", "sha1crypt": "$sha1$5$"}.get(m)
+    if head is None:
+        return []
+    out = []
+    for L in range(1, 92 if m != "sha1crypt" else 70):
+        for pos in sorted({0, L // 2, L - 1}):
+            body = salt(rng, L)
+            out.append(head + body[:pos] + rng.choice("-=+,_@#%&~") + body[pos + 1:])
+    return out
+
 def late_bad_char_settings(m, rng):
     """long settings (around and beyond the 384-byte output size) that are clean except for ONE forbidden byte far from the
     start -- at 382, 383, 384, 385, in the middle of the tail, at the very end: the generic character check covers the
